@@ -142,6 +142,19 @@ def run(rep, raws, tag, lanes=1, count=None):
             t.append(ua)
         mlines.append(" ".join(t))
     model = vlib.run_model(mlines)
+    # a case whose outcome differs from the model's is run AGAIN on its own, up to twice (a loopback listener that is late
+    # because this machine is busy lets a short read timeout expire; a client that does something else does so every time)
+    for l in lines:
+        cid = l.split(" ", 1)[0]
+        if impl.get(cid, "").split(" ;; ")[:2] != model.get(cid, "").split(" ;; ")[:2] and not impl.get(cid, "").startswith(("CRASH", "ABORT", "HANG", "bind-failed")):
+            for attempt in range(2):
+                io, pa = vlib.run_impl([l], tag=tag + "again")
+                rep.count("measured-again")
+                if io.get(cid, "").split(" ;; ")[:2] == model.get(cid, "").split(" ;; ")[:2]:
+                    impl[cid] = io[cid]
+                    panics.pop(cid, None)
+                    rep.count("measured-again:clean")
+                    break
     outs = []
     for (line, tags) in parsed:
         cid = line.split(" ", 1)[0]
